@@ -239,3 +239,5 @@ NOT_COVERED = [
 import contracts.c13b  # noqa: E402,F401  (merge_repeated_kwargs: repeated kwargs, shared with C13)
 
 import contracts.c02b  # noqa: E402,F401  (_extract_flags)
+
+import contracts.c02c  # noqa: E402,F401  (process_aggregate_kwargs)
